@@ -21,6 +21,7 @@ func checkC01(r *Run) {
 			ruleA4Confine(r, p)
 			ruleA4JSON(r, p)
 			ruleFloatGuard(r, p)
+			ruleDefaultInterfaceMarshal(r, p)
 		}
 	}
 	r.Floor("A3", 8)
